@@ -75,15 +75,15 @@ type site struct {
 }
 
 type rewriter struct {
-	fset  *token.FileSet
-	info  *types.Info
-	file  *ast.File
-	fname string
-	ctr   int
-	need  map[string]bool
-	sites *[]site
-	errs  []string
-	warns *[]string
+	fset     *token.FileSet
+	info     *types.Info
+	file     *ast.File
+	fname    string
+	ctr      int
+	need     map[string]bool
+	sites    *[]site
+	errs     []string
+	warns    *[]string
 	skipMain bool
 }
 
